@@ -1,11 +1,12 @@
 from vdriver import Group
 META = {'level': 'other'}
-STUBS = ['relay__RelayServer__queue_text', 'relay__is_hex_string', 'peer_id_from_string', 'peer_id_to_string']
+STUBS = ['relay__RelayServer__close_session', 'relay__RelayServer__queue_text', 'relay__is_hex_string', 'peer_id_from_string', 'peer_id_to_string']
 def groups(tier):
-    K = dict(unit='relay_pairing', harness='C25/pairing.c', stub=STUBS, unwind=6, unwind_by={'cxx_strlen': 30, 'str_from_n': 30, 'cxx_memcmp': 10}, kind='unbounded', backend=['sat', 'cadical'], timeout=600,
+    K = dict(unit='relay_pairing', harness='C25/pairing.c', stub=STUBS, unwind=6, unwind_by={'cxx_strlen': 30, 'str_from_n': 30, 'cxx_memcmp': 10, 'h_connect': 10, 'h_register': 10, 'h_detach': 10}, kind='unbounded', backend=['sat', 'cadical'], timeout=600,
              checks=['--bounds-check', '--pointer-check'], defines=['CXX_FIXED_STORAGE', 'CXX_VEC_CAP=32'], replay='reregister')
     return [Group('pairing.register', entry='h_register', clause='one REGISTER line preserves: pairings symmetric, only unclaimed sessions listed as registered, no partner before the first command', **K),
-            Group('pairing.connect', entry='h_connect', clause='one CONNECT line preserves the same invariant and pairs the connector with exactly the session listed for the target', **K)]
+            Group('pairing.connect', entry='h_connect', clause='one CONNECT line preserves the same invariant and pairs the connector with exactly the session listed for the target', **K),
+            Group('pairing.detach', entry='h_detach', clause='detach_partner: the partner of a disconnecting session is unlinked; a bridged / bridging partner is disconnected, a merely claimed registered peer is listed again', **dict(K, replay='disconnect'))]
 def replay(group, trace):
     """the REAL RelayServer with three TCP clients: a claimed peer registers again and a second connector asks for it"""
     import sys, os
@@ -13,6 +14,6 @@ def replay(group, trace):
     sys.path.insert(0, os.path.join(root, 'replay'))
     import replaylib as R
     exe = R.build_full('C25.cpp', with_daemon=False)
-    rc, out = R.run(exe, [], timeout=60)
+    rc, out = R.run(exe, [group.replay], timeout=60)
     last = [l for l in out.strip().splitlines() if l.strip()][-1:] or ['']
     return rc == 1, last[0][:500]
